@@ -1,0 +1,22 @@
+//go:build verif
+
+// Package verifhook provides schedule points for the verification harness.
+//
+// With the verif build tag a handler may be installed that is called at every point;
+// without the tag Point is an empty function.
+package verifhook
+
+import "sync/atomic"
+
+// Handler is called at every schedule point if set.
+var Handler atomic.Pointer[func(kind string, obj any)]
+
+// Enabled indicates the hooks are compiled in.
+const Enabled = true
+
+// Point is a schedule point.
+func Point(kind string, obj any) {
+	if h := Handler.Load(); h != nil {
+		(*h)(kind, obj)
+	}
+}
